@@ -731,7 +731,12 @@ def run(chk, repo, tier):
     okw, nw, detw = True, 0, ''
     for p in returns(wpaths):
         if nf.strip_apps(p.ret) == S('img'):
-            if any(pol and fmt(c) in ('is(shape, (None))', 'eq(img.size, 1)') for c, pol, _ in p.conds):
+            def _excused(c):
+                a_ = c.single_atom() if isinstance(c, Poly) else None
+                if a_ is not None and is_app(a_, 'or'):
+                    return all(isinstance(x, Poly) and _excused(x) for x in a_[2])
+                return fmt(c) in ('is(shape, (None))', 'eq(img.size, 1)')
+            if any(pol and _excused(c) for c, pol, _ in p.conds):
                 continue                    # nothing requested / a single value: returned as it is
             # handed back unchanged although a shape was requested: right only if the frame axes - the last two, a cube is
             # (depth, rows, cols) - already have that shape
